@@ -89,6 +89,9 @@ UpSH == <<46, 46, 47, 115, 47, 104>>        \* ../s/h
 UpSM == <<46, 46, 47, 115, 47, 109>>        \* ../s/m
 UpPB == <<46, 46, 47, 112, 47, 98>>         \* ../p/b
 RelLeaves == ("pb" :> <<T(<<80>>), PrintS(Var("a"))>>) @@ ("sb" :> <<T(<<83>>), PrintS(Var("a"))>>)
+\* a hash of 70 entries (k1 .. k3 and 67 more)
+WideKeys == <<NT.k1, NT.k2, NT.k3>> \o [i \in 1..67 |-> <<119, 48 + ((i + 9) \div 10), 48 + ((i + 9) % 10)>>]
+WideHash == Hash([i \in 1..70 |-> LS(WideKeys[i])], [i \in 1..70 |-> LI(i)])
 Extra ==
   [ rel1 |-> [entry |-> "pm", fl |-> "",
               tp |-> ("pm" :> <<RelI(UpSH), T(<<124>>), RelI(DotB), T(<<124>>), RelI(DotB)>>) @@ ("sh" :> <<T(<<72>>)>>) @@ RelLeaves],
@@ -118,6 +121,26 @@ Extra ==
                                       For1("g", Arr(<<LI(1), LI(2)>>), <<Inc(LS(NT.t1))>>),
                                       Include(LS(NT.t1), Hash(<<LS(NT.g)>>, <<LI(9)>>), TRUE, FALSE, FALSE, FALSE), Include(LS(NT.t1), Lit(Null), FALSE, TRUE, FALSE, FALSE)>>)
                          @@ ("t1" :> <<T(<<60>>), PrintS(Var("g")), PrintS(Var("a")), T(<<62>>), Inc(LS(NT.t3))>>) @@ ("t3" :> <<T(<<40>>), PrintS(Var("g")), T(<<41>>)>>)],
+    \* a name the includer binds to null hides the engine global of that name, in the included template too (two levels down,
+    \* through with, through a loop variable over a null element)
+    globalnull |-> [entry |-> "main", fl |-> "", globals |-> ("g" :> VS(<<71>>)) @@ ("a" :> VS(<<90>>)),
+                  tp |-> ("main" :> <<Set("g", Lit(Null)), T(<<91>>), PrintS(Var("g")), PrintS(Var("a")), T(<<93>>), Inc(LS(NT.t1)),
+                                      For1("a", Arr(<<Lit(Null), LI(2)>>), <<Inc(LS(NT.t1))>>),
+                                      Include(LS(NT.t1), Hash(<<LS(NT.a)>>, <<Lit(Null)>>), TRUE, FALSE, FALSE, FALSE)>>)
+                         @@ ("t1" :> <<T(<<60>>), PrintS(Var("g")), T(<<44>>), PrintS(Var("a")), PrintS(Cond(Test(Var("g"), "defined", <<>>, FALSE), LS(<<100>>), LS(<<117>>))), T(<<62>>), Inc(LS(NT.t3))>>)
+                         @@ ("t3" :> <<T(<<40>>), PrintS(Var("g")), PrintS(Var("a")), T(<<41>>)>>)],
+    \* the includer's loop variable is a variable like any other: the included template reads it before and after a loop of its own
+    loopread |-> [entry |-> "main", fl |-> "",
+                  tp |-> ("main" :> <<For1("i", Arr(<<LI(5), LI(6), LI(7)>>), <<Inc(LS(NT.t1)), T(<<59>>)>>)>>)
+                         @@ ("t1" :> <<PrintS(Attr(Var("loop"), "index")), For1("j", Arr(<<LI(1), LI(2)>>), <<PrintS(Attr(Var("loop"), "index"))>>), PrintS(Attr(Var("loop"), "index")),
+                                       PrintS(Attr(Var("loop"), "length")), PrintS(Cond(Attr(Var("loop"), "last"), LS(<<108>>), LS(<<110>>))), Inc(LS(NT.t3))>>)
+                         @@ ("t3" :> <<T(<<40>>), PrintS(Attr(Var("loop"), "index0")), For1("k", Arr(<<LI(1)>>), <<>>), PrintS(Attr(Var("loop"), "revindex")), T(<<41>>)>>)],
+    \* an include that receives more variables than a pooled map is sized for, then other includes: nothing stays behind
+    wide |-> [entry |-> "main", fl |-> "",
+                  tp |-> ("main" :> <<Include(LS(NT.t1), WideHash, TRUE, FALSE, FALSE, FALSE), T(<<124>>), Include(LS(NT.t3), Lit(Null), FALSE, TRUE, FALSE, FALSE), T(<<124>>),
+                                      Inc(LS(NT.t3)), T(<<124>>), Include(LS(NT.t1), Hash(<<LS(NT.k1)>>, <<LI(1)>>), TRUE, TRUE, FALSE, FALSE)>>)
+                         @@ ("t1" :> <<T(<<60>>), PrintS(Var("k1")), PrintS(Var("k2")), T(<<62>>), Include(LS(NT.t3), Lit(Null), FALSE, TRUE, FALSE, FALSE)>>)
+                         @@ ("t3" :> <<T(<<40>>), PrintS(Var("k1")), PrintS(Cond(Test(Var("k2"), "defined", <<>>, FALSE), LS(<<100>>), LS(<<117>>))), PrintS(Var("a")), T(<<41>>)>>)],
     \* a variable that holds null is defined, in the included template as in the including one
     nulldef |-> [entry |-> "main", fl |-> "",
                   tp |-> ("main" :> <<Set("x", Lit(Null)), PrintS(Cond(Test(Var("x"), "defined", <<>>, FALSE), LS(<<100>>), LS(<<117>>))), Inc(LS(NT.t1)),
